@@ -47,6 +47,13 @@ mod lemmas {
     /// s_to_usize(x) = x as usize, s_clamp = f64::clamp, s_of_usize(5) = 5usize as f64
     #[kani::proof]
     fn clamp_cast_le5() { let x: f64 = kani::any(); assert!((x.clamp(1.0, 5usize as f64) as usize) <= 5); }
+    /// s_neg(a) = -a
+    #[kani::proof]
+    fn abs_ge_zero() { let x: f64 = kani::any(); kani::assume(!x.is_nan()); assert!(x.abs() >= 0.0); }
+    #[kani::proof]
+    fn neg_le_self() { let a: f64 = kani::any(); kani::assume(a >= 0.0); assert!(-a <= a && 0.0 <= a); }
+    #[kani::proof]
+    fn one_le_five() { assert!(1.0f64 <= 5usize as f64); }
     /// vacuity guard: a false float claim must be refuted (the engine requires this harness to FAIL)
     #[kani::proof]
     fn vacuity_probe_must_fail() {
